@@ -50,7 +50,7 @@ pub fn run_script_dyn(variant: &str, sc: &Script) -> String {
     with_variant!(variant, run_script_here(sc))
 }
 
-fn clean_reader_panic(msg: &str) -> bool {
+pub fn clean_reader_panic(msg: &str) -> bool {
     // the bounds panic provoked by a contract-violating reader
     msg.contains("out of range for slice") || msg.contains("range end index") || msg.contains("slice index")
 }
